@@ -93,16 +93,7 @@ func loweringFields(lp optimize.LoweringPlan) []string {
 
 func run(db *pgsim.DB, tr translated) (gmodel.Result, string) {
 	res, out := db.Query(tr.sql, tr.params)
-	switch {
-	case out == nil || out.OK():
-		return res, ""
-	case out.Unsupported():
-		return res, "pgsim-unsupported: " + short(out.Reason())
-	case out.Class() == "runtime":
-		return res, "sql-runtime-error"
-	default:
-		return res, "sql-static-error(C03): " + short(out.Reason())
-	}
+	return res, qcase.SQLOutcome(out)
 }
 
 func short(s string) string {
@@ -149,7 +140,7 @@ func oracle(c qcase.Case) (evid.Info, error) {
 	sort.Strings(info.Classes)
 
 	// how much of the result does openCypher determine?
-	ref, det, err := qcase.Reference(model, c.Graph, c.Params, refcypher.Options{NegatedStringPredicate: refcypher.CoalesceLookups})
+	ref, det, err := qcase.Reference(model, c.Graph, c.Params, refcypher.Options{NegatedStringPredicate: refcypher.NegatedStringPredicateCoalesceLookups})
 	if err != nil {
 		var u *refcypher.Unsupported
 		if errors.As(err, &u) {
@@ -166,7 +157,7 @@ func oracle(c qcase.Case) (evid.Info, error) {
 
 	// (b) the rewritten Cypher means the same as the original
 	if plan, err := optimize.Optimize(model); err == nil && plan.Query != nil {
-		ref2, det2, err2 := qcase.Reference(plan.Query, c.Graph, c.Params, refcypher.Options{NegatedStringPredicate: refcypher.CoalesceLookups})
+		ref2, det2, err2 := qcase.Reference(plan.Query, c.Graph, c.Params, refcypher.Options{NegatedStringPredicate: refcypher.NegatedStringPredicateCoalesceLookups})
 		if err2 == nil && det2 != qcase.Undetermined {
 			d := det
 			if det2 < d {
